@@ -612,6 +612,8 @@ def cpl(c, F, G = None, h = None, dims = None, A = None, b = None,
         sum(dims['s']), 1))
     lmbdasq0 = matrix(0.0, (mnl + dims['l'] + sum(dims['q']) + 
         sum(dims['s']), 1))
+    sigs0 = matrix(0.0, (sum(dims['s']), 1))
+    sigz0 = matrix(0.0, (sum(dims['s']), 1))
     
 
     if show_progress: 
@@ -1222,6 +1224,8 @@ def cpl(c, F, G = None, h = None, dims = None, A = None, b = None,
                             blas.copy(dz, dz0)
                             blas.copy(ds2, ds20)
                             blas.copy(dz2, dz20)
+                            blas.copy(sigs, sigs0)
+                            blas.copy(sigz, sigz0)
                             blas.copy(lmbda, lmbda0)
                             blas.copy(lmbdasq, lmbdasq0)
                             dsdz0 = dsdz
@@ -1271,6 +1275,8 @@ def cpl(c, F, G = None, h = None, dims = None, A = None, b = None,
                             blas.copy(dz0, dz)
                             blas.copy(ds20, ds2)
                             blas.copy(dz20, dz2)
+                            blas.copy(sigs0, sigs)
+                            blas.copy(sigz0, sigz)
                             blas.copy(lmbda0, lmbda)
                             dsdz = dsdz0
                             sigma, eta = sigma0, eta0
